@@ -48,6 +48,7 @@ MAP = [
  ("while a kind is still provisional", ["C14"]),
  ("non-finite numpy constant", ["C01"]),
  ("independent statements depends on the hash seed", ["C15"]),
+ ("explicit array bounds in a user type", ["C03"]),
 ]
 def main():
     log = subprocess.run(["git", "-C", "/repo", "log", "--reverse", "--format=%h %s"],
